@@ -838,7 +838,7 @@ void mmd_export_token_opendocument(DString * out, const char * source, token * t
 							scratch->padded = 1;
 						} else {
 							if (t->child->next) {
-								d_string_append_c_array(out, &source[t->child->start + t->child->len], t->start + t->len - t->child->next->start);
+								d_string_append_c_array(out, &source[t->child->next->start], t->start + t->len - t->child->next->start);
 							}
 
 							scratch->padded = 0;
